@@ -267,3 +267,49 @@ func (d *VerifDurable) C04RSHosts(id core.RSChunkID) []core.TractserverID {
 
 // C04PieceLength is what reconstructChunk asks RSEncode for (the production piece length).
 const C04PieceLength = RSPieceLength
+
+// SeedExpected / Unseed: see seedExpected / unseed.  The C04 harness keeps the expected entries for the whole run of
+// a recovery task it runs in isolation (Heal): reconstruct / replicateTract need the monitor to know the servers they
+// are told are bad (allocateTS looks their addresses up), which in production it does because updateTsmonLoop keeps
+// the durable known-tractserver set in the monitor.
+func (vr *VerifRecovery) SeedExpected(only []core.TractserverID) (added []core.TractserverID) {
+	// only the servers the task names (the harness' placement pinning heartbeats every server the monitor has an
+	// entry for, which must not turn an expected-only server into a reachable one)
+	c := vr.V.C
+	t := c.tsMon
+	var ids []core.TractserverID
+	for _, id := range c.stateHandler.GetKnownTSIDs() {
+		for _, o := range only {
+			if o == id {
+				ids = append(ids, id)
+			}
+		}
+	}
+	t.lock.Lock()
+	for _, id := range ids {
+		if _, ok := t.idToHost[id]; !ok {
+			added = append(added, id)
+		}
+	}
+	t.lock.Unlock()
+	t.updateExpected(ids)
+	return
+}
+
+// Unseed ends the window: the entries SeedExpected added go again, also if the harness' placement pinning (which
+// sends a load report on behalf of every server the monitor has an entry for) gave them an address meanwhile - the
+// server itself never sent this incarnation a heartbeat.
+func (vr *VerifRecovery) Unseed(added []core.TractserverID) {
+	t := vr.V.C.tsMon
+	t.lock.Lock()
+	for _, id := range added {
+		if d, ok := t.idToHost[id]; ok {
+			if d.Addr != "" {
+				delete(t.hostToID, d.Addr)
+			}
+			delete(t.idToHost, id)
+		}
+	}
+	t.refreshStatus()
+	t.lock.Unlock()
+}
